@@ -72,7 +72,11 @@ def upload(n, crc, sized, how, fault=None):
     tag = "C13/upload/%s" % (fault[0] if fault else "clean")
     got = None
     try:
-        fp = rig.client.open(idx, sub, "rb", buffering=(1024 if how == "buffered" else 0), block_transfer=True,
+        if how.startswith("chunks:"):          # buffered stream read in pieces: "chunks:<buffering>:<chunk>"
+            buffering = int(how.split(":")[1])
+        else:
+            buffering = 1024 if how == "buffered" else 0
+        fp = rig.client.open(idx, sub, "rb", buffering=buffering, block_transfer=True,
                              request_crc_support=True)
         try:
             if how == "raw7":
@@ -83,12 +87,31 @@ def upload(n, crc, sized, how, fault=None):
                         break
                     parts.extend(sx.items(d))
                 got = sx.mkbytes(parts)
+            elif how.startswith("chunks:"):
+                chunk = int(how.split(":")[2])
+                parts = []
+                while True:
+                    d = fp.read(chunk)
+                    if not d:
+                        break
+                    sx.prove(len(d) <= chunk, "read(n) returns at most n bytes", tag + "/read-size")
+                    parts.extend(sx.items(d))
+                got = sx.mkbytes(parts)
             else:
                 got = fp.read()
-            if how != "buffered":
+            if how in ("rawall", "raw7"):
                 sx.prove(fp.size == (n if sized else None), "announced size", tag + "/size")
         finally:
             fp.close()
+    except ValueError as e:
+        # not an SDO error: the stream machinery itself gave up (still no wrong data, but an undisturbed transfer
+        # must succeed)
+        sx.observe("exc", C.exc_name(e))
+        if not fault:
+            sx.fail("undisturbed block upload raised ValueError", tag + "/%s/raises-ValueError" % how.replace(":", "-"))
+            return
+        sx.reach("failed-visibly")
+        return
     except (E.SdoCommunicationError, E.SdoAbortedError) as e:
         sx.observe("exc", C.exc_name(e))
         got = None
@@ -126,6 +149,16 @@ def jobs(tier):
                     if n > 100 and how != "buffered":
                         continue
                     out.append(dict(func="upload", params=dict(n=n, crc=crc, sized=sized, how=how), weight=n))
+    # the buffered stream read in pieces (buffer sizes around and far above a segment; pieces that end just before the
+    # end of the buffer so that the reader refills a nearly full buffer)
+    chunked = [(50, "chunks:16:15"), (50, "chunks:4:3"), (64, "chunks:8:20"), (100, "chunks:100:99"), (30, "chunks:2:1"),
+               (2100, "chunks:1024:1023")]
+    if not q:
+        chunked += [(200, "chunks:%d:%d" % (b, c)) for b in (2, 3, 5, 6, 7, 8, 13, 14, 15, 16, 64) for c in (1, b - 1, b, b + 1, 2 * b + 3)
+                    if c >= 1] + [(3000, "chunks:1024:500"), (3000, "chunks:1024:1024"), (9000, "chunks:8192:8190")]
+    for n, how in chunked:
+        for crc in (1, 0):
+            out.append(dict(func="upload", params=dict(n=n, crc=crc, sized=1, how=how), weight=n))
     if q:
         out.append(dict(func="upload", params=dict(n=889, crc=1, sized=1, how="buffered"), weight=900))
         out.append(dict(func="upload", params=dict(n=890, crc=1, sized=1, how="buffered"), weight=900))
